@@ -22,8 +22,9 @@ TRUSTED = [
     'Coq stdlib QArith, Lqa (theorems closed under the global context)',
 ]
 ASSUMPTIONS = [
-    'computechi2: amatrix is two-dimensional (N, M) as documented, full column rank on the points with non-zero sqivar, '
-    'cond(A^T W A) < 1e5; float64 inputs',
+    'computechi2: amatrix is two-dimensional (N, M) as documented, full column rank on the points with non-zero sqivar; '
+    'random systems with cond(A^T W A) < 1e5 plus badly scaled polynomial systems in raw pixel coordinates with '
+    'cond 2e8 .. 2e10 (the unmodified code is accurate to ~1e-10 there); float64 inputs',
     'pcomp: more observations than variables, no constant column; full-rank cases have cond < 1e6, and one case in five has '
     'an exactly singular covariance matrix (one variable = sum of two others)',
     'HMF steps: every row/column sub-problem is non-singular (cond < 1e5); M >= 2 pixels; positive a, g and '
@@ -82,7 +83,22 @@ def gen_chi2(ctx):
         if cond(An.T @ W @ An) > 1e5:
             continue
         calls.append(('chi2', {'f': 'chi2', 'b': b, 'sq': sq, 'A': A}))
-    return calls
+    # full-rank but badly scaled systems: polynomial basis [1, x, x^2] in raw pixel coordinates x = 0..n-1
+    # (cond(A^T W A) 1e8 .. 1e10); small integers so that the exact model stays cheap
+    ill = []
+    while len(ill) < ctx.n(4, 30):
+        n = rng.choice([120, 150, 200])
+        x = list(range(n))
+        A = [[1.0, float(v), float(v * v)] for v in x]
+        coef = [dy(rng, 1, 5, 2), -dy(rng, 1, 4, 2) / 64.0, dy(rng, 1, 4, 2) / 4096.0]
+        b = [round((coef[0] + coef[1] * v + coef[2] * v * v + rng.uniform(-0.25, 0.25)) * 8) / 8.0 for v in x]
+        sq = [float(rng.choice([0, 1, 1, 1, 2])) for _ in x]
+        An = np.array(A)
+        cnd = cond(An.T @ np.diag(np.array(sq) ** 2) @ An)
+        if not (2e8 < cnd < 2e10):
+            continue
+        ill.append(('chi2-illcond', {'f': 'chi2', 'b': b, 'sq': sq, 'A': A, '_cond': cnd}))
+    return calls + ill
 
 
 def frac_cov(x, ddof):
@@ -177,6 +193,10 @@ def lowrank(rng, n, m, rank, positive=True, noise=0.02):
     return (np.round(data * 256) / 256).tolist()
 
 
+# boundary seeds: 0 (falsy but a valid seed), 1, the largest value numpy.random.seed accepts; slot 3 = random
+SEEDS = [0, 0, 2 ** 32 - 1, None, 1]
+
+
 def gen_hmf_solve(ctx):
     rng = ctx.rng
     calls = []
@@ -190,7 +210,8 @@ def gen_hmf_solve(ctx):
         for j in range(M):
             w[rng.randrange(N)][j] = 1.0
         calls.append(('hmf_solve-' + ('nn' if nonneg else 'std') + ('-eps' if eps else ''),
-                      {'f': 'hmf_solve', 's': s, 'w': w, 'K': K, 'n_iter': 4 if nonneg else 3, 'seed': rng.randrange(1, 10 ** 6),
+                      {'f': 'hmf_solve', 's': s, 'w': w, 'K': K, 'n_iter': 4 if nonneg else 3,
+                       'seed': SEEDS[len(calls) % len(SEEDS)] if len(calls) % len(SEEDS) != 3 else rng.randrange(1, 10 ** 6),
                        'nonnegative': nonneg, 'eps': eps}))
     return calls
 
@@ -234,7 +255,7 @@ def case_term(c, r):
 
 
 CLAUSES = {
-    'chi2': ['normal-equations', 'yfit', 'chi2', 'dof', 'covar-inverse', 'covar-symmetric', 'var-diagonal'],
+    'chi2': ['normal-equations', 'yfit', 'chi2', 'dof', 'covar-inverse', 'covar-symmetric', 'var-diagonal', 'chi2-not-minimal'],
     'pcomp': ['witness-sd0', 'witness-sdc', 'shape', 'eigen', 'outer-product', 'variance-fractions', 'variance-sum', 'derived'],
     'hmf_step': ['astep-optimal', 'gstep-optimal', 'badness-astep', 'badness-gstep', 'nonneg'],
     'pca': ['shape', 'acoeff-projection', 'eigenvalues-descending', 'usemask-shape', 'usemask-count'],
